@@ -184,6 +184,67 @@ def closure_form_decls():
     return decls
 
 
+def combo_decls():
+    """C02: every combination of validator kinds of a family (lower x upper x finite/not_empty x predicate, two
+    orders): no written rule may be dropped because of the company it keeps."""
+    import itertools
+    decls = []
+    n = 0
+
+    def rule(k, b=0, fn=""):
+        return {"k": k, "b": b, "fn": fn, "p": [], "sp": "lit"}
+    for ty in ("i16", "f64", "f32"):
+        fam = "int" if ty == "i16" else "float"
+        enc = (lambda x: x) if fam == "int" else (lambda x, ty=ty: f_bits(ty, float(x)))
+        for lo, up, fin, pr in itertools.product((None, "greater", "greater_or_equal"), (None, "less", "less_or_equal"), (0, 1), (0, 1)):
+            if fam == "int" and fin:
+                continue
+            val = []
+            if lo:
+                val.append(rule(lo, enc(3)))
+            if up:
+                val.append(rule(up, enc(9)))
+            if fin:
+                val.append(rule("finite"))
+            if pr:
+                val.append(rule("predicate", 0, "even" if fam == "int" else "not_nan"))
+            if len(val) < 2:
+                continue
+            for order in (val, val[::-1]):
+                n += 1
+                d = {"id": "cb%03d" % n, "fam": fam, "ty": ty, "src_ty": ty, "san": [], "vmode": "std", "val": list(order),
+                     "traits": ["Debug", "Clone", "PartialEq"], "dflt": [], "minimal_driver": True, "model_accepts": True,
+                     "spelling_text": "+".join(r["k"] for r in order), "tag": "combination:" + fam}
+                if fam == "int":
+                    d["cells"] = list(range(0, 13)) + [-1, 100, -32768, 32767]
+                else:
+                    W = 32 if ty == "f32" else 64
+                    nan = 0x7fc00000 if ty == "f32" else 0x7ff8000000000000
+                    inf = 0x7f800000 if ty == "f32" else 0x7ff0000000000000
+                    sign = 1 << (W - 1)
+                    d["cells"] = sorted({f_bits(ty, float(x)) for x in range(0, 13)} | {f_bits(ty, 2.5), f_bits(ty, 9.5), nan, nan | sign, nan | 1, inf, inf | sign, sign})
+                decls.append(d)
+    for ne, mn, mx, pr in itertools.product((0, 1), (0, 1), (0, 1), (0, 1)):
+        val = []
+        if ne:
+            val.append(rule("not_empty"))
+        if mn:
+            val.append(rule("len_char_min", 2))
+        if mx:
+            val.append(rule("len_char_max", 3))
+        if pr:
+            val.append(rule("predicate", 0, "has_a"))
+        if len(val) < 2:
+            continue
+        for order in (val, val[::-1]):
+            n += 1
+            decls.append({"id": "cb%03d" % n, "fam": "string", "ty": "String", "san": [], "vmode": "std", "val": list(order),
+                          "traits": ["Debug", "Clone", "PartialEq"], "dflt": [], "minimal_driver": True, "model_accepts": True,
+                          "spelling_text": "+".join(r["k"] for r in order), "tag": "combination:string",
+                          "cells": [(), (97,), (98,), (97, 98), (98, 98), (97, 98, 99), (98, 98, 98), (97, 98, 99, 100), (98, 98, 98, 98), (223, 97), (128512, 97, 98, 99)]})
+    return decls
+
+
 def mixed_validation_rows(rows):
     """slice V of MC_Decl: validate(..) blocks that mix `with`/`error` with built-in validators. Such a block cannot be honoured
     (one error type, two rule sets): C02 demands rejection. -> {id: surface src}"""
@@ -209,7 +270,7 @@ def check_C02():
         raise ToolError("MC_Bound emitted no spellings")
     from .props_decl import mc_decl_rows
     rd, rows = mc_decl_rows()
-    decls = spelling_decls(spells) + layout_decls(rows) + closure_form_decls()
+    decls = spelling_decls(spells) + layout_decls(rows) + closure_form_decls() + combo_decls()
 
     def rows_of(d):
         ep = "try_new" if d["vmode"] != "none" else "new"
